@@ -363,6 +363,9 @@ type outcome struct {
 	aborted   bool
 	how       string
 	completed int // visible host calls that returned Continue
+	// set when the program ended in a trap / memory fault with gas to spare: gas left after the last host call
+	tailGasLeft int64
+	tailKnown   bool
 }
 
 // gasModel replays the cost model of the property text over the static program:
@@ -678,10 +681,12 @@ func (ck *checker) checkRun(er *execResult) {
 			}
 		}
 		switch sc.end {
-		case endTrap:
-			out.aborted, out.how = true, "trap"
-			if gasLeft < 1 {
-				out.how = "out of gas before trap"
+		case endTrap, endFault:
+			out.aborted, out.how = true, map[ending]string{endTrap: "trap", endFault: "memory fault"}[sc.end]
+			if gasLeft < int64(sc.tailInstr) {
+				out.how = "out of gas before " + out.how
+			} else {
+				out.tailGasLeft, out.tailKnown = gasLeft, true
 			}
 		case endLoop:
 			out.aborted, out.how = true, "gas burnt in loop"
@@ -691,6 +696,21 @@ func (ck *checker) checkRun(er *execResult) {
 			} else {
 				out.how = "halt"
 			}
+		}
+	}
+	// C08 at the end of the invocation: what Psi_A hands back (balances of the returned state plus the amounts of the
+	// returned deferred transfers) is what the rest of the node goes on with; it must not exceed what went in,
+	// however the invocation ended (halt, panic, out of gas; with or without a checkpoint)
+	if r.Wants("C08") && er.resSnap != nil && er.resSnap.xferSum != nil {
+		in, outSum := er.initial.sum(), er.resSnap.sum()
+		if outSum.Cmp(in) > 0 {
+			how := "halt"
+			if out.aborted {
+				how = "abort"
+			}
+			r.Violate("C08", "sum-increased", "returned-sum-exceeds-initial-after-"+how, "%s (%s; %d host calls completed): the invocation returns balances + deferred transfers = %s, it started with %s\n returned accounts %s\n returned transfers %s\n program %v", ck.tag, out.how, completed, outSum, in, er.resSnap.acctsStr, er.resSnap.transfers, progDesc(sc))
+		} else {
+			r.Count("probe:returned_sum_checked", 1)
 		}
 	}
 	if r.Wants("C10") {
@@ -735,6 +755,16 @@ func (ck *checker) checkRun(er *execResult) {
 			wantUsed := int64(er.limit) - (gasLeft - int64(sc.tailInstr))
 			if int64(used) != wantUsed {
 				r.Violate("C04", "reported", "reported-gas-wrong-after-halt", "%s: halted with %d gas left after the last host call and %d more instructions; reported used %d, expected %d", ck.tag, gasLeft, sc.tailInstr, used, wantUsed)
+			}
+		}
+		// a trap or a faulting load / store with gas to spare: every instruction up to and including the one that
+		// stopped the program was executed and costs one unit, nothing behind it was
+		if out.tailKnown && er.limit <= math.MaxInt64 {
+			wantUsed := int64(er.limit) - (out.tailGasLeft - int64(sc.tailInstr))
+			if int64(used) != wantUsed {
+				r.Violate("C04", "reported", "reported-gas-wrong-after-"+strings.ReplaceAll(out.how, " ", "-"), "%s: %s with %d gas left after the last host call and %d more executed instruction(s); reported used %d, expected %d\n program %v", ck.tag, out.how, out.tailGasLeft, sc.tailInstr, used, wantUsed, progDesc(sc))
+			} else {
+				r.Count("probe:reported_gas_checked_after_"+strings.ReplaceAll(out.how, " ", "_"), 1)
 			}
 		}
 		if out.aborted && strings.Contains(out.how, "gas") && used != er.limit && er.limit <= math.MaxInt64 {
